@@ -23,7 +23,8 @@ OPS = ['cf_cycles', 'cf_amp', 'cf_cycles_trough', 'cf_amp_trough', 'shape', 'sha
        'extrema', 'zerox', 'cf2d_dict', 'cf2d_list', 'cf2d_alias', 'cf2d_none_axis', 'cf3d', 'edges', 'limit', 'limit_all', 'epoch', 'drop', 'plot_summary', 'plot_cyclepoints', 'plot_param',
        'cf2d_amp_list', 'cf_trough_raises', 'shape_trough_raises', 'cf_amp_raises',
        'shape_trough_sub', 'cf_trough_sub', 'cyclepoints_sub', 'mono_sub', 'shape_trough_series',
-       'extrema_nsec_a', 'extrema_nsec_b', 'cf_nsec_a', 'cf_nsec_b', 'cf_ncyc5', 'user_refill', 'user_refill']
+       'extrema_nsec_a', 'extrema_nsec_b', 'cf_nsec_a', 'cf_nsec_b', 'cf_ncyc5', 'user_refill', 'user_refill',
+       'cf_empty_fk', 'extrema_empty_fk', 'shape_empty_fk', 'edges_nobursts', 'edges_nobursts_t']
 
 class World:
     """the shared argument objects of one session"""
@@ -42,17 +43,23 @@ class World:
         self.bk_min6 = {'min_n_cycles': 6}
         self.opt_list_amp = [{'burst_method': 'amp', 'burst_kwargs': self.bk_min6, 'threshold_kwargs': self.th_a},
                              {'burst_method': 'amp', 'burst_kwargs': self.bk_min6, 'threshold_kwargs': self.th_a}]
+        self.fek_empty = {'filter_kwargs': {}}                      # a filter dictionary that fixes neither n_cycles nor n_seconds
+        self.fk_empty = {}
+        self.th_strict = {'amp_fraction_threshold': 0.99, 'amp_consistency_threshold': 0.99, 'period_consistency_threshold': 0.99, 'monotonicity_threshold': 0.99, 'min_n_cycles': 3}
         self.sig_sub = implutil.present(self.sig, 'subclass')      # an ndarray subclass: np.asarray(sig_sub) is a new object on the same memory
         self.sig_series = pd.Series(self.sig.copy())
         self.sigs2 = np.array([self.sig[:500], self.sig[500:]])
         self.sigs3 = np.array([[self.sig[:500], self.sig[500:]]])
         self.df = implutil.quiet(compute_features, self.sig.copy(), self.fs, self.fr, threshold_kwargs=dict(self.th_c))
         self.df_t = implutil.quiet(compute_features, self.sig.copy(), self.fs, self.fr, center_extrema='trough', threshold_kwargs=dict(self.th_c))
+        # tables WITHOUT any burst (strict thresholds): edge recomputation has no edge to work on
+        self.df_nob = implutil.quiet(compute_features, self.sig.copy(), self.fs, self.fr, threshold_kwargs=dict(self.th_strict))
+        self.df_nob_t = implutil.quiet(compute_features, self.sig.copy(), self.fs, self.fr, center_extrema='trough', threshold_kwargs=dict(self.th_strict))
         # the tables of the REFILLED buffer (the samples reversed) are prepared now, so that a refill later involves no library call
         rev = np.ascontiguousarray(self.sig[::-1])
         self._alt = (implutil.quiet(compute_features, rev.copy(), self.fs, self.fr, threshold_kwargs=dict(self.th_c)),
                      implutil.quiet(compute_features, rev.copy(), self.fs, self.fr, center_extrema='trough', threshold_kwargs=dict(self.th_c)))
-        self.shared = ['sig', 'th_c', 'th_a', 'bk', 'bk_min', 'fek', 'opts', 'opt_list', 'sigs2', 'sigs3', 'df', 'df_t', 'bk_min6', 'opt_list_amp', 'sig_sub', 'sig_series']
+        self.shared = ['sig', 'th_c', 'th_a', 'bk', 'bk_min', 'fek', 'opts', 'opt_list', 'sigs2', 'sigs3', 'df', 'df_t', 'bk_min6', 'opt_list_amp', 'sig_sub', 'sig_series', 'fek_empty', 'fk_empty', 'th_strict', 'df_nob', 'df_nob_t']
     def snapshot(self):
         out = {}
         for k in self.shared:
@@ -121,6 +128,11 @@ def _call(w, op):
         if op == 'user_refill':      # the CALLER refills its own signal buffer in place (an acquisition buffer): no library call is involved
             _refill(w)
             return 'refilled'
+        if op == 'cf_empty_fk': return q(compute_features, w.sig, w.fs, w.fr, threshold_kwargs=w.th_c, find_extrema_kwargs=w.fek_empty)
+        if op == 'extrema_empty_fk': return q(find_extrema, w.sig, w.fs, w.fr, filter_kwargs=w.fk_empty)
+        if op == 'shape_empty_fk': return q(compute_shape_features, w.sig, w.fs, w.fr, center_extrema='trough', find_extrema_kwargs=w.fek_empty)
+        if op == 'edges_nobursts': return q(recompute_edges, w.df_nob, w.th_c)
+        if op == 'edges_nobursts_t': return q(recompute_edges, w.df_nob_t, w.th_c)
         if op == 'cf3d': return q(compute_features_3d, w.sigs3, w.fs, w.fr, compute_features_kwargs=w.opts, axis=(0, 1), n_jobs=1)
         if op == 'edges': return q(recompute_edges, w.df, w.th_c)
         if op == 'limit': return q(limit_df, w.df_t, w.fs, start=0.5, stop=3.0)
